@@ -251,6 +251,9 @@ func runCaseByIndex(prop, tier string, seed uint64, idx int, keepDir string) *Ca
 func materializeForReplay(prop, tier string, seed uint64, idx int, dir string) {
 	if _, ok := simProps[prop]; ok {
 		sc := GenScenario(prop, seed, idx)
+		if prop == "C16" {
+			sc = c16Scenario(seed, idx)
+		}
 		sc.Materialize(dir, filepath.Join(dir, "out"))
 		b, _ := json.MarshalIndent(sc, "", " ")
 		os.WriteFile(filepath.Join(dir, "scenario.json"), b, 0644)
